@@ -100,6 +100,7 @@ class Engine:
         self.structs = {}
         self.by_short = {}
         self.closures = {}
+        self.closures_all = {}
         self.inline_filter = None
         self.run_drop_impls = set()   # type base names whose crate `Drop` impl is executed at drop terminators
         self._stmt_cache = {}
@@ -159,6 +160,20 @@ class Engine:
             self.by_short.setdefault(f.short, []).append(f)
             if f.closure_key:
                 self.closures[f.closure_key] = f
+                self.closures_all.setdefault(f.closure_key, []).append(f)
+
+    def find_closure(self, key, m):
+        """Closure body for a closure type; closures created by the SAME macro expansion in several functions share
+        their type name, so prefer the body nested in one of the functions on the call stack."""
+        c = self.closures_all.get(key, [])
+        if len(c) <= 1:
+            return c[0] if c else None
+        for fr in reversed(m.frames):
+            pre = fr.fn.raw_name + "::{closure"
+            hit = [f for f in c if f.raw_name.startswith(pre)]
+            if len(hit) == 1:
+                return hit[0]
+        return None
 
     def find_fn(self, pattern):
         """Find exactly one function whose raw name matches the regex."""
